@@ -131,7 +131,8 @@ def lib_item(item, st_: State):
         return Remark(G.item_line(item, st_.platform), platform=st_.platform, version=st_.version)
     # the new entry is created for the ACL's own platform and version (names are spelled from that table)
     ace = Ace(G.render_ace(item["rec"], st_.platform, st_.version, noise=False), platform=st_.platform,
-              version=st_.version, port_nr=st_.port_nr, protocol_nr=st_.protocol_nr)
+              version=st_.version, port_nr=st_.port_nr, protocol_nr=st_.protocol_nr,
+              **({"max_ncwb": st_.max_ncwb} if st_.max_ncwb is not None else {}))
     A.attach_members(ace, item["rec"])
     return ace
 
@@ -204,6 +205,46 @@ def apply(op, s: State, v: Verdict):
             return None
         acl.reverse()
         s.flat.reverse()
+    elif name == "twin":
+        # a copy of one entry that differs in the destination port only, placed next to it
+        if s.group_by or n < 1 or any(type(o).__name__ == "AceGroup" for o in acl.items):
+            return None
+        i = op[1] % n
+        it = s.flat[i]
+        if it["t"] != "ace" or it["rec"]["proto"] not in (6, 17) or not isinstance(op[2], int) or not 1 <= op[2] <= 65535:
+            return None
+        rec = dict(it["rec"], dp={"op": "eq", "v": [op[2]], "nm": [0]})
+        item = {"t": "ace", "rec": rec}
+        obj = lib_item(item, s)
+        acl.insert(i + 1, obj)
+        s.flat.insert(i + 1, item)
+    elif name == "sort_twice":
+        # sort() of entries in whatever numbering they have: the order itself is the library's business, but it is a
+        # permutation of the entries and sorting the sorted list again changes nothing
+        if s.group_by or n < 2 or any(type(o).__name__ == "AceGroup" for o in acl.items):
+            return None
+        acl.sort()
+        once = [o.line for o in acl.items]
+        acl.sort()
+        twice = [o.line for o in acl.items]
+        if once != twice:
+            v.fail("op:sort:sorting-a-sorted-list-changes-it", {"once": once, "twice": twice})
+            return name
+        try:
+            _, got = G.read_flat(acl.line, s.platform, s.version, strict=False)
+        except R.RefError:
+            return name  # reported by the invariants
+        want = G.flat_meaning({"items": s.flat})
+        used, order = set(), []
+        for g in got:
+            k = next((j for j, w in enumerate(want) if j not in used and w == g), None)
+            if k is None:
+                v.fail("op:sort:entries-changed", {"text": acl.line})
+                return name
+            used.add(k)
+            order.append(k)
+        if len(order) == len(s.flat):
+            s.flat = [s.flat[k] for k in order]
     elif name == "fill_in_place":
         # build the ACL the way cisco_acl.aces() does: empty object with the same settings, items appended in place
         from cisco_acl import Acl
@@ -398,7 +439,10 @@ def item_st(platform):
 def op_st(draw, platform):
     name = draw(st.sampled_from(["platform", "platform", "port_nr", "protocol_nr", "resequence", "group", "ungroup",
                                  "shuffle_sort", "reverse", "insert", "append", "pop", "remove", "copy", "export_import",
-                                 "reparse", "delete_shadow", "delete_shadow", "ungroup_ports", "indent", "fill_in_place"]))
+                                 "reparse", "delete_shadow", "delete_shadow", "ungroup_ports", "indent", "fill_in_place",
+                                 "twin", "sort_twice"]))
+    if name == "twin":
+        return [name, draw(st.integers(0, 12)), draw(st.sampled_from([80, 443, 22, 9, 10, 99, 100, 1812, 123, 8080, 65535, 1]))]
     if name == "platform":
         return [name, draw(st.sampled_from(["ios", "nxos", "ios", "nxos", "cisco_ios", "cisco_nxos", "cnx"]))]
     if name in ("port_nr", "protocol_nr"):
@@ -431,6 +475,40 @@ def history_st(draw, tier):
             acl["max_ncwb"] = 30
             draw(st.sampled_from(aces))["rec"]["src"] = {"k": "wild", "b": 0x08000001, "w": 0x03FFFE00 | (draw(st.integers(0, 255)) << 1 & ~1)}
     ops = draw(st.lists(op_st(acl["platform"]), min_size=4, max_size=25 if tier == "quick" else 40))
+    if draw(st.sampled_from(range(5))) == 2:
+        # several independent (covering entry, covered entry) pairs in one ACL, interleaved in every way, and
+        # shadow removal early in the history
+        platform = acl["platform"]
+        pairs, fill = [], []
+        for i in range(draw(st.integers(2, 3))):
+            top = draw(G.ace_st(platform, kmax=0, groups=False, seq=False, noise=False, established=False, neq_multi=False,
+                                protos=st.sampled_from([0, 6, 17])))
+            top["src"] = G.native_addr((G.POOL_BASE | (i + 1) << 16, 0xFFFF), platform)
+            top["flags"] = []
+            low = dict(top, src=G.native_addr((G.POOL_BASE | (i + 1) << 16 | draw(st.integers(0, 255)) << 8,
+                                               draw(st.sampled_from([0, 0xFF]))), platform))
+            if top["proto"] in (6, 17) and draw(st.booleans()):
+                low["dp"] = top.get("dp") or {"op": "eq", "v": [draw(st.sampled_from([22, 80, 443]))], "nm": [-1]}
+            pairs.append((top, low))
+        for _ in range(draw(st.integers(0, 2))):
+            other = draw(G.ace_st(platform, kmax=0, groups=False, seq=False, noise=False, established=False, neq_multi=False))
+            other["src"] = G.native_addr((G.POOL_BASE | 9 << 16 | draw(st.integers(0, 255)) << 8, 0xFF), platform)
+            fill.append(other)
+        layout = draw(st.sampled_from(["k1 s1 k2 s2", "k1 k2 s1 s2", "k1 s1 s1 k2 s2", "k1 k2 s2 s1", "k1 s1 f k2 s2", "f k1 s1 k2 f s2"]))
+        recs = []
+        if len(pairs) == 3:
+            layout += " k3 s3" if draw(st.booleans()) else " k3 f s3"
+        for tok in layout.split():
+            if tok == "f":
+                if fill:
+                    recs.append(dict(fill[len(recs) % len(fill)]))
+            else:
+                top, low = pairs[int(tok[1]) - 1]
+                recs.append(dict(top if tok[0] == "k" else low))
+        acl["items"] = [{"t": "ace", "rec": G.to_native(r, platform)} for r in recs]
+        acl["group_by"] = ""
+        acl.pop("max_ncwb", None)
+        ops.insert(draw(st.integers(0, 2)), ["delete_shadow", draw(st.integers(0, 4))])
     return {"acl": acl, "ops": ops}
 
 
